@@ -114,7 +114,8 @@ type Result struct {
 	CtlReplays  int64
 	MaxDepth    int
 	Outcomes    map[string]int64
-	Violations  []Violation // deduplicated by Sig, shortest path each
+	Violations  []Violation   // deduplicated by Sig, shortest path each
+	Candidates  [][]Violation // per signature: alternative paths (shortest first) for confirmation
 	CapHit      bool
 	Samples     [][]string
 	Bounds      Bounds
@@ -135,12 +136,27 @@ type explorer struct {
 	maxDep  atomic.Int64
 	outMu   sync.Mutex
 	out     map[string]int64
-	viols   map[string]Violation
+	viols   map[string][]Violation // per signature: up to 6 shortest distinct paths
 	samples [][]string
 }
 
-func (e *explorer) canon(w *world.World, m any) [16]byte {
+// rollbacksIn lists (sorted) the Rollback ops a path has used.
+func (e *explorer) rollbacksIn(path []int) []string {
+	var out []string
+	for _, p := range path {
+		if e.sys.Ops[p].Rollback {
+			out = append(out, e.sys.Ops[p].Name)
+		}
+	}
+	sort.Strings(out)
+	return out
+}
+
+func (e *explorer) canon(w *world.World, m any, path []int) [16]byte {
 	h := sha256.New()
+	for _, r := range e.rollbacksIn(path) {
+		h.Write([]byte("RB:" + r + ";"))
+	}
 	for _, s := range e.sys.Stores {
 		world.HashKVs(h, s, w.Dump(s))
 	}
@@ -183,10 +199,22 @@ func (e *explorer) record(vs []Violation) {
 	e.outMu.Lock()
 	defer e.outMu.Unlock()
 	for _, v := range vs {
-		old, ok := e.viols[v.Sig]
-		if !ok || len(v.Path) < len(old.Path) {
-			e.viols[v.Sig] = v
+		cur := e.viols[v.Sig]
+		dup := false
+		for _, c := range cur {
+			if strings.Join(c.Path, "|") == strings.Join(v.Path, "|") {
+				dup = true
+			}
 		}
+		if dup {
+			continue
+		}
+		cur = append(cur, v)
+		sort.SliceStable(cur, func(i, j int) bool { return len(cur[i].Path) < len(cur[j].Path) })
+		if len(cur) > 6 {
+			cur = cur[:6]
+		}
+		e.viols[v.Sig] = cur
 	}
 }
 
@@ -383,6 +411,9 @@ func (e *explorer) dfs(w *world.World, m any, path []int, forced []int, d, v int
 		if d == 0 {
 			continue
 		}
+		if op.Rollback && len(e.rollbacksIn(path)) >= e.b.Rollbacks {
+			continue
+		}
 		if e.b.NoFork {
 			if op.Tx(w, m) == nil {
 				continue
@@ -443,7 +474,7 @@ func (e *explorer) leaf(path []int) {
 
 // descend evaluates the state oracle (once per distinct state) and recurses unless dominated.
 func (e *explorer) descend(w *world.World, m any, path []int, forced []int, d, v int) {
-	k := e.canon(w, m)
+	k := e.canon(w, m, path)
 	isNew, expand := e.visit(k, d, v)
 	if isNew && e.sys.OnState != nil {
 		var vs []Violation
@@ -467,16 +498,19 @@ func (e *explorer) descend(w *world.World, m any, path []int, forced []int, d, v
 // Run explores the system within bounds using b.Workers goroutines, each owning a private World.
 func Run(sys *System, b Bounds) *Result {
 	t0 := time.Now()
+	if b.Rollbacks == 0 {
+		b.Rollbacks = 1
+	}
 	if b.Workers <= 0 {
 		b.Workers = runtime.NumCPU()
 		if s := os.Getenv("VERIF_WORKERS"); s != "" {
 			fmt.Sscan(s, &b.Workers)
 		}
 	}
-	e := &explorer{sys: sys, b: b, visited: map[[16]byte][]visitEntry{}, out: map[string]int64{}, viols: map[string]Violation{}}
+	e := &explorer{sys: sys, b: b, visited: map[[16]byte][]visitEntry{}, out: map[string]int64{}, viols: map[string][]Violation{}}
 	// root state
 	w0, m0 := sys.Fresh()
-	k := e.canon(w0, m0)
+	k := e.canon(w0, m0, nil)
 	e.visit(k, b.Depth, b.V)
 	if sys.OnState != nil {
 		var vs []Violation
@@ -542,7 +576,8 @@ func Run(sys *System, b Bounds) *Result {
 	}
 	sort.Strings(sigs)
 	for _, s := range sigs {
-		res.Violations = append(res.Violations, e.viols[s])
+		res.Violations = append(res.Violations, e.viols[s][0])
+		res.Candidates = append(res.Candidates, e.viols[s])
 	}
 	return res
 }
